@@ -340,7 +340,10 @@ func c01Finalize(w *World, r *Report, pa *pipelineAnchors) {
 				ok := onlyVia(fin, c.Block(), peNil)
 				r.Ob(ri, key+"|effect|"+n, c.Pos(), ok, "positive effect must be reachable only through pipelineError == nil")
 				if n == "net/http/httputil.ReverseProxy.ServeHTTP" {
-					up := func(v ssa.Value) bool { p, ok := v.(*ssa.Parameter); return ok && len(fin.Params) > 1 && p == fin.Params[1] }
+					up := func(v ssa.Value) bool {
+						p, ok := v.(*ssa.Parameter)
+						return ok && len(fin.Params) > 1 && p == fin.Params[1]
+					}
 					ok := onlyVia(fin, c.Block(), nonNilOf(up))
 					r.Ob(ri, key+"|effect|upstream-present", c.Pos(), ok, "proxying must be reachable only through upstream != nil")
 				}
@@ -390,7 +393,9 @@ func c01ErrorHandlerMechanisms(w *World, r *Report, pa *pipelineAnchors) {
 		key := w.FnName(fn)
 		ctxP := fn.Params[1]
 		var sets []*ssa.Call
-		for _, c := range findCalls(fn, func(c *ssa.CallCommon) bool { return c.IsInvoke() && c.Method.Name() == "SetPipelineError" && c.Value == ctxP }) {
+		for _, c := range findCalls(fn, func(c *ssa.CallCommon) bool {
+			return c.IsInvoke() && c.Method.Name() == "SetPipelineError" && c.Value == ctxP
+		}) {
 			sets = append(sets, c)
 		}
 		good := []*ssa.Call{}
@@ -1049,6 +1054,51 @@ func c01RuleExecute(w *World, r *Report, pa *pipelineAnchors) {
 	creators := findCalls(fn, func(c *ssa.CallCommon) bool { return fieldCall(c, pa.compSC) })
 	handlers := findCalls(fn, func(c *ssa.CallCommon) bool { return fieldCall(c, pa.compSH) })
 	ehs := findCalls(fn, func(c *ssa.CallCommon) bool { return fieldCall(c, pa.compEH) })
+	// index of the error result of an error-pipeline call (0 for eh.Execute itself)
+	ehRes := map[*ssa.Call]int{}
+	// a small helper of the rule ("fail") may stand for the error pipeline: a method of the same
+	// receiver that does nothing but return (nil, r.eh.Execute(ctx, err)) for its (ctx, err) parameters
+	for _, ci := range callsIn(fn) {
+		c, ok := ci.(*ssa.Call)
+		if !ok {
+			continue
+		}
+		h := c.Common().StaticCallee()
+		if h == nil || h.Blocks == nil || h == fn || h.Signature.Recv() == nil || derefNamed(h.Signature.Recv().Type()) != pa.ruleImpl || len(c.Common().Args) != 3 || c.Common().Args[0] != ssa.Value(recv) || len(h.Params) != 3 {
+			continue
+		}
+		inner := findCalls(h, func(cc *ssa.CallCommon) bool {
+			if !methodCallNamed(cc, "Execute") {
+				return false
+			}
+			rv := callRecv(cc)
+			if rv == nil || !types.Identical(rv.Type(), pa.compEH) {
+				return false
+			}
+			b, _ := fieldLoad(rv)
+			return b == ssa.Value(h.Params[0])
+		})
+		if len(inner) != 1 || len(callsIn(h)) != 1 || inner[0].Common().Args[1] != ssa.Value(h.Params[1]) || inner[0].Common().Args[2] != ssa.Value(h.Params[2]) {
+			continue
+		}
+		okRet := len(returnsOf(h)) == 1
+		for _, ret := range returnsOf(h) {
+			n := len(ret.Results)
+			if n == 0 || !isResult(inner[0], 0)(ret.Results[n-1]) {
+				okRet = false
+			}
+			for _, rv := range ret.Results[:n-1] {
+				if k, isK := rv.(*ssa.Const); !isK || k.Value != nil {
+					okRet = false
+				}
+			}
+		}
+		if okRet {
+			ehs = append(ehs, c)
+			ehRes[c] = h.Signature.Results().Len() - 1
+			r.Analysed(w.FnName(h))
+		}
+	}
 	if len(creators) != 1 || len(handlers) != 2 || len(ehs) == 0 {
 		r.Ob(ri, key+"|shape", fn.Pos(), false, fmt.Sprintf("expected 1 creator, 2 handler-stage and >=1 error-pipeline calls on receiver fields, found %d/%d/%d", len(creators), len(handlers), len(ehs)))
 		return
@@ -1113,7 +1163,7 @@ func c01RuleExecute(w *World, r *Report, pa *pipelineAnchors) {
 			case s.Kind == "call":
 				good := false
 				for _, e := range ehs {
-					if isResult(e, 0)(s.V) {
+					if isResult(e, ehRes[e])(s.V) {
 						good = true
 					}
 				}
@@ -1126,6 +1176,18 @@ func c01RuleExecute(w *World, r *Report, pa *pipelineAnchors) {
 		}
 		if !successShaped {
 			for _, s := range w.Sources(ret.Results[0], ret.Block()) {
+				if s.Kind == "call" {
+					// the (always nil) first result of the error-pipeline helper
+					fromHelper := false
+					for _, e := range ehs {
+						if ehRes[e] > 0 && isResult(e, 0)(s.V) {
+							fromHelper = true
+						}
+					}
+					if fromHelper {
+						continue
+					}
+				}
 				if s.Kind != "nil" {
 					ok, msg = false, "a backend is returned together with an error"
 				}
